@@ -2,7 +2,7 @@
 """tools/seedsweep.py [names...]: for every seeded change under /verif/seeded/ apply it to a scratch worktree
 of /repo HEAD and run the quick check of the property it breaks; writes seeded/RESULTS.json (which check
 caught which change, with signatures)."""
-import json, os, re, subprocess, sys, glob
+import json, os, re, subprocess, sys, glob, hashlib, shutil
 names = sys.argv[1:] or sorted(os.path.basename(d) for d in glob.glob('/verif/seeded/C*'))
 out_p = '/verif/seeded/RESULTS.json'
 res = json.load(open(out_p)) if os.path.exists(out_p) else {}
@@ -22,4 +22,5 @@ for n in names:
                   'repo_head': subprocess.run('git -C /repo rev-parse --short HEAD', shell=True, capture_output=True, text=True).stdout.strip()}
         print(n, 'caught' if p.returncode == 1 else 'MISSED rc=%d' % p.returncode, sigs[:2])
     subprocess.run('git -C /repo worktree remove --force %s' % wt, shell=True, capture_output=True)
+    shutil.rmtree('/verif/.build/alt-' + hashlib.sha1(wt.encode()).hexdigest()[:8], ignore_errors=True)
     json.dump(res, open(out_p, 'w'), indent=1, sort_keys=True)
